@@ -238,13 +238,15 @@ def gen_cent(
                     N_cen_QSO(mass[i], logM_cut_Q_temp, sigma_Q) * ic_Q * multis[i]
                 )
 
-            if randoms[i] <= LRG_marker:
+            # a tracer with an empty slice (zero mean occupation here) hosts nothing,
+            # not even for a stored random of exactly 0
+            if want_LRG and LRG_marker > 0 and randoms[i] <= LRG_marker:
                 Nout[tid, 0, 0] += 1  # counting
                 keep[i] = 1
-            elif randoms[i] <= ELG_marker:
+            elif want_ELG and ELG_marker > LRG_marker and randoms[i] <= ELG_marker:
                 Nout[tid, 1, 0] += 1  # counting
                 keep[i] = 2
-            elif randoms[i] <= QSO_marker:
+            elif want_QSO and QSO_marker > ELG_marker and randoms[i] <= QSO_marker:
                 Nout[tid, 2, 0] += 1  # counting
                 keep[i] = 3
             else:
@@ -1073,13 +1075,15 @@ def gen_sats(
                     exp_sat = base_p_Q
                 QSO_marker += exp_sat
 
-            if randoms[i] <= LRG_marker:
+            # a tracer with an empty slice (zero mean occupation here) hosts nothing,
+            # not even for a stored random of exactly 0
+            if want_LRG and LRG_marker > 0 and randoms[i] <= LRG_marker:
                 Nout[tid, 0, 0] += 1  # counting
                 keep[i] = 1
-            elif randoms[i] <= ELG_marker:
+            elif want_ELG and ELG_marker > LRG_marker and randoms[i] <= ELG_marker:
                 Nout[tid, 1, 0] += 1  # counting
                 keep[i] = 2
-            elif randoms[i] <= QSO_marker:
+            elif want_QSO and QSO_marker > ELG_marker and randoms[i] <= QSO_marker:
                 Nout[tid, 2, 0] += 1  # counting
                 keep[i] = 3
             else:
